@@ -62,7 +62,14 @@ impl SourcePath {
                 let Some(name) = ancestor.file_name() else {
                     return Ok(absolute);
                 };
-                suffix = PathBuf::from(name).join(suffix);
+                // Joining an empty suffix would append a trailing separator, and the
+                // identity of a file that does not exist yet must equal its later
+                // canonical path.
+                suffix = if suffix.as_os_str().is_empty() {
+                    PathBuf::from(name)
+                } else {
+                    PathBuf::from(name).join(suffix)
+                };
                 let Some(parent) = ancestor.parent() else {
                     return Ok(absolute);
                 };
